@@ -239,6 +239,13 @@ def run_settings_ops(ctx):
         if bad is None and lastop[0] in "EU" and (lastop[0] == "E" or lastop[2] is not None):
             if st.sim_end < last_end_req - 1e-9 or st.sim_end - st.sim_dt >= last_end_req + 1e-9:
                 bad = f"after {ops}: end {st.sim_end!r} is not the first grid point (start {st.sim_start}, dt {st.sim_dt}) at or after the requested end {last_end_req}"
+        # whatever the last operation was: the grid starts at the start year, is spaced dt, and reaches the end year requested most recently
+        short = len(tv) >= 1 and float(tv[-1]) < last_end_req - 1e-9
+        off = len(tv) >= 1 and abs(float(tv[0]) - st.sim_start) > 1e-9
+        if short or off:
+            ctx.violation({"api": "ProjectSettings.history", "case": "grid-does-not-cover-the-requested-years"},
+                          f"after {ops} on ProjectSettings({s0}, {e0}, {d0}): the time vector runs from {float(tv[0])!r} to {float(tv[-1])!r} (dt {st.sim_dt}); start year {st.sim_start}, end year requested {last_end_req}", {"case": key})
+            continue
         if bad:
             is_oracle = "first grid point" in bad or (st.sim_end - st.sim_dt >= last_end_req + 1e-9 and lastop[0] in "EU" and (lastop[0] == "E" or lastop[2] is not None))
             if is_oracle:
